@@ -14,7 +14,9 @@ import (
 	"encoding/json"
 	"fmt"
 	"math"
+	"os"
 	"os/exec"
+	"path/filepath"
 	"sort"
 	"strconv"
 	"strings"
@@ -636,20 +638,63 @@ func fsRecordParsed(ew *eventWriter, t int, rng interface {
 	Float64() float64
 }, filterBin string) error {
 	text := fsRandText(rng, t)
-	rd := benchfmt.NewReader(strings.NewReader(text), "in")
 	var recs []benchfmt.Record
-	for rd.Scan() {
-		switch r := rd.Result().(type) {
-		case *benchfmt.Result:
-			recs = append(recs, r.Clone())
-		case *benchfmt.UnitMetadata:
-			recs = append(recs, r)
+	collect := func(scan func() bool, result func() benchfmt.Record) {
+		for scan() {
+			switch r := result().(type) {
+			case *benchfmt.Result:
+				recs = append(recs, r.Clone())
+			case *benchfmt.UnitMetadata:
+				recs = append(recs, r)
+			}
 		}
 	}
 	var out []byte // everything written so far
 	var w *benchfmt.Writer
 	var buf bytes.Buffer
-	if filterBin != "" {
+	src := "parsed"
+	switch {
+	case filterBin != "" && t%2 == 0:
+		// several input files (one of them labelled) through the benchfilter binary: every file
+		// starts with an empty configuration, so the writer has to retract the previous file's
+		// keys; the tool-internal .file label must not be written
+		src = "benchfilter-files"
+		dir, err := os.MkdirTemp(os.Getenv("VERIF_WORK"), "bf")
+		if err != nil {
+			return err
+		}
+		defer os.RemoveAll(dir)
+		var args []string
+		nf := 2 + rng.Intn(2)
+		for f := 0; f < nf; f++ {
+			p := filepath.Join(dir, fmt.Sprintf("in%d.txt", f))
+			txt := text
+			if f > 0 {
+				txt = fsRandText(rng, t*7+f)
+			}
+			if err := os.WriteFile(p, []byte(txt), 0o644); err != nil {
+				return err
+			}
+			if f == 1 {
+				p = "lab=" + p
+			}
+			args = append(args, p)
+		}
+		files := benchfmt.Files{Paths: args, AllowLabels: true}
+		collect(files.Scan, files.Result)
+		if err := files.Err(); err != nil {
+			return err
+		}
+		cmd := exec.Command(filterBin, append([]string{"*"}, args...)...)
+		o, err := cmd.Output()
+		if err != nil {
+			return fmt.Errorf("benchfilter: %v", err)
+		}
+		out = o
+	case filterBin != "":
+		src = "benchfilter"
+		rd := benchfmt.NewReader(strings.NewReader(text), "in")
+		collect(rd.Scan, rd.Result)
 		cmd := exec.Command(filterBin, "*")
 		cmd.Stdin = strings.NewReader(text)
 		o, err := cmd.Output()
@@ -657,12 +702,10 @@ func fsRecordParsed(ew *eventWriter, t int, rng interface {
 			return fmt.Errorf("benchfilter: %v", err)
 		}
 		out = o
-	} else {
+	default:
+		rd := benchfmt.NewReader(strings.NewReader(text), "in")
+		collect(rd.Scan, rd.Result)
 		w = benchfmt.NewWriter(&buf)
-	}
-	src := "parsed"
-	if filterBin != "" {
-		src = "benchfilter"
 	}
 	nw := 0
 	start := 0
